@@ -5,6 +5,7 @@ import (
 	"fmt"
 	"os"
 	"regexp"
+	"strings"
 	"time"
 
 	"gvh/common"
@@ -63,6 +64,10 @@ func (r *runner) attempt(c *fedlab.Case, kind string) (*fedlab.Verdict, bool) {
 			return v, false
 		}
 	}
+	// the candidate must fail in the same way as the case being shrunk (see failureShape)
+	if r.shrinkShape != "" && failureShape(v) != r.shrinkShape {
+		return v, false
+	}
 	if r.lab != nil {
 		if err := r.lab.Validate(c.Op.Text()); err != nil {
 			if os.Getenv("C01_DEBUG") != "" {
@@ -72,6 +77,37 @@ func (r *runner) attempt(c *fedlab.Case, kind string) (*fedlab.Verdict, bool) {
 		}
 	}
 	return v, true
+}
+
+var digitsRE = regexp.MustCompile(`[0-9]+`)
+
+// failureShape abstracts a failure so that shrinking does not drift from one finding into another one that fails
+// the same clause: for a data difference the features the classification looks at (upstream merge aliases on the way,
+// inherited parent type conditions on the plan fields of the position, what kind of difference), otherwise the
+// beginning of the message without its numbers.
+func failureShape(v *fedlab.Verdict) string {
+	f := v.Failed()
+	if len(f) == 0 {
+		return ""
+	}
+	d := v.FailDetail()
+	if f[0] == "data_equal" {
+		if k := strings.Index(d, " ;; position "); k >= 0 {
+			kind := "value"
+			switch {
+			case strings.Contains(d[:k], ": members {"):
+				kind = "members"
+			case strings.Contains(d[:k], ": null vs "):
+				kind = "null"
+			}
+			return fmt.Sprintf("data_equal/%s/alias=%v/parentOn=%v", kind, !strings.Contains(d[k:], "upstream merge aliases {}"),
+				strings.Contains(d[k:], "parentOn=["))
+		}
+	}
+	if len(d) > 70 {
+		d = d[:70]
+	}
+	return f[0] + "/" + digitsRE.ReplaceAllString(d, "N")
 }
 
 // selection lists of an operation, addressable for deletion
@@ -98,6 +134,8 @@ func selLists(o *fedlab.Operation) []*[]*fedlab.Sel {
 // touches.  Returns the path of the shrunk replay ("" when nothing could be written).
 func (r *runner) shrink(c *fedlab.Case, v *fedlab.Verdict) string {
 	kind := v.Failed()[0]
+	r.shrinkShape = failureShape(v)
+	defer func() { r.shrinkShape = "" }()
 	deadline := time.Now().Add(40 * time.Second)
 	var steps []string
 	best, bestV := c, v
